@@ -1115,6 +1115,7 @@ func (e *runtimeEnv) buildBatchWith(b *batchImpl) *flyt.BatchNodeBuilder {
 		v := rt.cur()
 		i, k := rt.itemIndexClaim(v, arg, true)
 		e.record(fmt.Sprintf("be:%d:%d:%d:%d:%s", id, v, i, k, encVal(arg)))
+		e.maybePanic("b" + strconv.Itoa(i) + ":" + strconv.Itoa(k)) // panic family: exec attempt k of item i panics
 		if b.gate != nil {
 			b.gate(i, k)
 		}
